@@ -80,6 +80,14 @@ def firstErr : Script → IOErr
   | .dataErr _ e :: _ => e
   | .fail e :: _ => e
 
+/-- the reader after its first error has been reported to the caller of `io.ReadFull`: the events after the first
+error event (`Retry.lean`: `fillR`, `C05_readfull_failed`) -/
+def afterErr : Script → Script
+  | [] => []
+  | .data _ :: s => afterErr s
+  | .dataErr _ _ :: s => s
+  | .fail _ :: s => s
+
 /-! ### a state-and-error monad over any byte source -/
 
 def Rd (σ α : Type) := σ → Except SErr (α × σ)
